@@ -589,6 +589,25 @@ def _annotation_roots(pb, rng, size):
                 cut = {"mode": "chunk", "genome": g, "chunk": [a, b]}
                 names.append(pb.add_root(rng.choice(["cds", "cds", "transcript"]), specs.with_parent(t, cut)))
                 pb.sliced.append(names[-1])
+    # a stand-alone CDS whose blocks overlap by 1-3 bp (how a programmed -1 frameshift is annotated): the codon that spans
+    # the overlap has no Location in reading order, so codon-based and sequence-based paths meet different data
+    if coding and rng.random() < 0.3:
+        t = copy.deepcopy(rng.choice(coding))
+        cs, ce = list(t["cds_starts"]), list(t["cds_ends"])
+        k = rng.randint(1, 3)
+        if len(cs) >= 2:
+            i = rng.randrange(len(cs) - 1)
+            if ce[i] - k > cs[i] and ce[i] - k < ce[i + 1]:
+                cs[i + 1] = ce[i] - k
+        elif ce[0] - cs[0] >= 8:
+            m = rng.randint(cs[0] + 3, ce[0] - 4)
+            cs, ce = [cs[0], m], [m + k, ce[0]]
+        if any(cs[j + 1] < ce[j] for j in range(len(cs) - 1)):
+            f0 = {"ZERO": 0, "ONE": 1, "TWO": 2}[t["cds_frames"][0 if t["strand"] == "PLUS" else -1]]
+            t["cds_starts"], t["cds_ends"] = cs, ce
+            t["cds_frames"] = specs.frames_for(cs, ce, t["strand"], f0)
+            names.append(pb.add_root("cds", specs.with_parent(t, parent)))
+            pb.sliced.append(names[-1])  # preferred by covering walks, like roots cut by their chunk
     # near-twin: same collection on another parent description
     if rng.random() < 0.5:
         p2 = specs.gen_parent(rng, g, must_cover=None)
@@ -721,7 +740,7 @@ def gen_plan(rng, check="C10", size=1, max_steps=60, known_avoid=()):
         kinds = sorted({pb.objects[n]["kind"] for n in roots})
         kind = rng.choice(kinds)
         target = rng.choice([n for n in roots if pb.objects[n]["kind"] == kind])
-        if pb.sliced and rng.random() < 0.3:
+        if pb.sliced and rng.random() < 0.4:
             # objects cut by their sequence chunk keep two sets of books (chunk-relative and chromosome): prefer them
             target = rng.choice(pb.sliced)
             kind = pb.objects[target]["kind"]
@@ -869,7 +888,8 @@ def gen_plan(rng, check="C10", size=1, max_steps=60, known_avoid=()):
             # memo thrash: argument-keyed memos with more distinct tuples than maxsize
             cands = [n for n in roots if pb.objects[n]["kind"] in ("cds", "transcript")]
             if cands:
-                target = rng.choice(cands)
+                special = [n for n in pb.sliced if n in cands]
+                target = rng.choice(special) if special and rng.random() < 0.6 else rng.choice(cands)
                 kind = pb.objects[target]["kind"]
                 names = (["translate(args)", "scan_chunk_relative_codon_locations", "scan_chromosome_codon_locations",
                           "translate", "extract_sequence", "chunk_relative_codon_locations"]
@@ -894,6 +914,23 @@ def gen_plan(rng, check="C10", size=1, max_steps=60, known_avoid=()):
                         if rng.random() < 0.5:
                             roots.append(st["store"])  # visible to later sessions too
         sessions.append(steps)
+    # spotlight: a root with unusual book-keeping (cut by its chunk, overlapping CDS blocks) gets a short session of its
+    # own made of the questions that keep two sets of books (codon locations vs sequence), in a seed-chosen order
+    for n in pb.sliced:
+        if rng.random() < 0.6:
+            kind = pb.objects[n]["kind"]
+            names = (["chunk_relative_codon_locations", "extract_sequence", "translate", "num_codons", "scan_codons", "chromosome_codon_locations",
+                      "scan_chunk_relative_codon_locations", "has_valid_stop", "has_start_codon", "translate(args)"]
+                     if kind == "cds" else ["get_protein_sequence", "get_cds_sequence", "cds", "get_transcript_sequence", "get_protein_sequence(args)"])
+            names = [x for x in names if x in BY_NAME[kind]]
+            rng.shuffle(names)
+            steps = []
+            for x in names[: rng.randint(2, 6)]:
+                st = pb.call_step(len(sessions), n, BY_NAME[kind][x], store_p=0.0)
+                if st:
+                    steps.append(st)
+            if steps:
+                sessions.append(steps)
     # two callers describe a child placed on "the same" location of near-colliding coordinate systems
     for pair in pb.collision_pairs:
         steps = []
